@@ -20,6 +20,7 @@ EXPLANATION = (
     'Also decided (round 9): The worker-loop obligations (slot cleared before hand-back, event protocol, handed back only while alive) are shared from C05/C18. '
     "Also decided (round 11): _clientDisconnect removes streams with pop(id, default) (a concurrent removal cannot make it skip the user's hook). "
     'Also decided (round 10): The clean-up loop of SocketConnection.close iterates a snapshot of the tracked resources (a resource may untrack itself while being closed). '
+    "Also decided (round 12): Nothing can escape the multiplex loop's request handling (shared from C05-R1): the loop that cleans up every multiplex connection survives the end of one. "
     "Not decided: counts observed at run time, byte offsets."
 )
 
@@ -56,6 +57,17 @@ def run(ctx, R, tier):
         R.add("C13-R7", "handleRequest|client-set-before-user-code", "current_context.client is this request's connection before _getInstance / dispatch can run user code "
               "(track_resource files a resource under current_context.client: set too late, the resource is closed with another connection or never)", o.ok, o.loc, o.detail)
 
+    # on the multiplex server the clean-up of EVERY connection hangs on the one loop thread: whatever can escape its request handling (also from inside a handler, e.g.
+    # getpeername() on a reset connection) ends the loop - no disconnect hook, no close, no selector release for any connection from then on (shared with C05-R1)
+    from . import c05 as _c05x
+    R5x = _Rules("C05")
+    try:
+        _run_shared(ctx, _c05x, R5x, tier)
+    except AnalysisError as _shared_x:
+        R.note("obligations shared from C05 are incomplete on this tree: %s" % _shared_x)
+    for o in R5x.obs:
+        if o.rule == "C05-R1" and "svr_multiplex.SocketServer_Multiplex.loop" in o.key:
+            R.add("C13-R2", "multiplex-loop|" + o.key.split("|", 1)[1][-110:], o.desc + " (the loop that cleans up all multiplex connections survives the end of one)", o.ok, o.loc, o.detail)
     # a connection that was accepted is served (and then cleaned up) at all only if the worker it was handed to is not lost: the worker-loop obligations of C05-R2 / C18-R4
     # (slot cleared before the worker is handed back, the event protocol, handed back only while alive) are part of "every connection is cleaned up"
     from .c05 import worker_loop_rules
